@@ -21,26 +21,37 @@ VARIABLES l, bad,
           active,    \* a case is in progress
           readDone,  \* buffered mode: the handler's single body read has been logged
           eofSeen,   \* streaming: the stream reported EOF to the handler
-          unread     \* the connection was closed because a streamed body was left unread
-tvars == <<vars, l, bad, script, active, readDone, eofSeen, unread>>
+          unread,    \* the connection was closed because a streamed body was left unread
+          behs,      \* handler behaviour per request: "ok" | "panic" (recovered by the recovery middleware)
+          level      \* tracer level of the case: "detailed" | "base" | "off"
+tvars == <<vars, l, bad, script, active, readDone, eofSeen, unread, behs, level>>
 
 Line == Trace[l]
 HasLine == l <= Len(Trace)
 
-Abstract(s) == LET o == Offsets(s) IN
-               [i \in 1 .. Len(s) |-> [start |-> o[i].start, headEnd |-> o[i].headEnd, end |-> o[i].end,
-                                       bodyLen |-> s[i].bodyLen, expect100 |-> s[i].expect100,
-                                       close |-> s[i].close, bad |-> FALSE, big |-> FALSE]]
+\* the abstract requests of a case: offsets from Wire; a literal (raw) request is malformed; a body over the
+\* configured limit is "big"; when the peer closes at offset cut (> 0) the request containing it is partial and
+\* later ones never arrive
+Abstract(s, maxBody, cut) ==
+    LET o == Offsets(s)
+        n == IF cut = 0 THEN Len(s) ELSE Cardinality({i \in 1 .. Len(s) : o[i].start < cut})
+    IN [i \in 1 .. n |-> [start |-> o[i].start, headEnd |-> o[i].headEnd,
+                          end |-> IF cut > 0 /\ cut < o[i].end THEN cut ELSE o[i].end,
+                          bodyLen |-> s[i].bodyLen, expect100 |-> s[i].expect100 /\ s[i].raw = "",
+                          close |-> s[i].close /\ s[i].raw = "", bad |-> s[i].raw # "",
+                          big |-> (maxBody > 0 /\ s[i].bodyLen > maxBody),
+                          partial |-> (cut > 0 /\ o[i].start < cut /\ cut < o[i].end)]]
 
-Blank == /\ reqs' = << >> /\ cfg' = [streaming |-> FALSE, idle |-> "inloop"] /\ sent' = 0 /\ eof' = FALSE /\ rd' = 0
+NoCfg == [streaming |-> FALSE, idle |-> "inloop", trace |-> FALSE, wfail |-> 0]
+Blank == /\ reqs' = << >> /\ cfg' = NoCfg /\ sent' = 0 /\ eof' = FALSE /\ rd' = 0
          /\ phase' = "closed" /\ cur' = 1 /\ cons' = 0 /\ interim' = FALSE /\ hlog' = << >> /\ out' = << >>
-         /\ topen' = FALSE /\ tlog' = << >> /\ script' = << >> /\ active' = FALSE
-         /\ readDone' = FALSE /\ eofSeen' = FALSE /\ unread' = FALSE
+         /\ topen' = FALSE /\ pairReq' = 0 /\ tlog' = << >> /\ script' = << >> /\ active' = FALSE
+         /\ readDone' = FALSE /\ eofSeen' = FALSE /\ unread' = FALSE /\ behs' = << >> /\ level' = "off"
 
-TraceInit == /\ reqs = << >> /\ cfg = [streaming |-> FALSE, idle |-> "inloop"] /\ sent = 0 /\ eof = FALSE /\ rd = 0
+TraceInit == /\ reqs = << >> /\ cfg = NoCfg /\ sent = 0 /\ eof = FALSE /\ rd = 0
              /\ phase = "closed" /\ cur = 1 /\ cons = 0 /\ interim = FALSE /\ hlog = << >> /\ out = << >>
-             /\ topen = FALSE /\ tlog = << >> /\ script = << >> /\ active = FALSE
-             /\ readDone = FALSE /\ eofSeen = FALSE /\ unread = FALSE
+             /\ topen = FALSE /\ pairReq = 0 /\ tlog = << >> /\ script = << >> /\ active = FALSE
+             /\ readDone = FALSE /\ eofSeen = FALSE /\ unread = FALSE /\ behs = << >> /\ level = "off"
              /\ l = 1 /\ bad = << >>
 
 \* header fields: same number of fields, and for every name the same values in the same order (the relative
@@ -50,15 +61,17 @@ SameFields(a, b) == /\ Len(a) = Len(b)
                     /\ \A k \in DOMAIN b : ValuesOf(a, b[k].name) = ValuesOf(b, b[k].name)
 
 Consume == l' = l + 1 /\ UNCHANGED bad
-KeepAux == UNCHANGED <<script, active, readDone, eofSeen, unread>>
+KeepAux == UNCHANGED <<script, active, readDone, eofSeen, unread, behs, level>>
+Beh(i) == IF i \in DOMAIN behs THEN behs[i] ELSE "ok"
 
 TraceCase == /\ HasLine /\ Line.ev = "Case" /\ ~active
              /\ \A i \in DOMAIN Line.script : WellFormedReq(Line.script[i])
              /\ script' = Line.script /\ active' = TRUE /\ readDone' = FALSE /\ eofSeen' = FALSE /\ unread' = FALSE
-             /\ reqs' = Abstract(Line.script)
-             /\ cfg' = [streaming |-> Line.cfg.streaming, idle |-> Line.cfg.idle]
+             /\ reqs' = Abstract(Line.script, Line.cfg.maxBody, Line.cfg.truncate)
+             /\ cfg' = [streaming |-> Line.cfg.streaming, idle |-> Line.cfg.idle, trace |-> Line.cfg.trace # "off", wfail |-> Line.cfg.wfail]
+             /\ behs' = Line.behs /\ level' = Line.cfg.trace
              /\ sent' = 0 /\ eof' = FALSE /\ rd' = 0 /\ phase' = "idle" /\ cur' = 1 /\ cons' = 0 /\ interim' = FALSE
-             /\ hlog' = << >> /\ out' = << >> /\ topen' = FALSE /\ tlog' = << >>
+             /\ hlog' = << >> /\ out' = << >> /\ topen' = FALSE /\ pairReq' = 0 /\ tlog' = << >>
              /\ Consume
 
 TraceDeliver == /\ active /\ HasLine /\ Line.ev = "Deliver" /\ Deliver(Line.n) /\ Consume /\ KeepAux
@@ -76,7 +89,7 @@ TraceHandle ==
        /\ Line.method = e.method /\ Line.target = e.target /\ Line.ver = e.ver
        /\ SameFields(Line.fields, e.fields)
     /\ readDone' = FALSE /\ eofSeen' = FALSE
-    /\ Consume /\ UNCHANGED <<script, active, unread>>
+    /\ Consume /\ UNCHANGED <<script, active, unread, behs, level>>
 
 \* runs observed by a read that returned k bytes starting at body offset c of request i
 OneRun(i, c, k) == IF k = 0 THEN << >> ELSE <<<<i, c, c + k>>>>
@@ -87,7 +100,7 @@ TraceReadBuffered ==
     /\ Line.k = BodyLen(cur) /\ Line.runs = OneRun(cur, 0, Line.k) /\ Line.err = ""
     /\ Line.rd = rd
     /\ readDone' = TRUE
-    /\ Consume /\ UNCHANGED <<vars, script, active, eofSeen, unread>>
+    /\ Consume /\ UNCHANGED <<vars, script, active, eofSeen, unread, behs, level>>
 
 \* streamed body: a read returns the next k bytes of the body (0 <= k <= p); EOF exactly at the end
 TraceReadStream ==
@@ -104,31 +117,64 @@ TraceReadStream ==
     /\ rd' = Line.rd
     /\ eofSeen' = (eofSeen \/ Line.eof)
     /\ Consume
-    /\ UNCHANGED <<reqs, cfg, sent, eof, phase, cur, interim, hlog, out, topen, tlog, script, active, readDone, unread>>
+    /\ UNCHANGED <<reqs, cfg, sent, eof, phase, cur, interim, hlog, out, topen, pairReq, tlog, script, active, readDone, unread, behs, level>>
 
 TraceHandleEnd ==
     /\ active /\ HasLine /\ Line.ev = "HandleEnd"
     /\ HandleEnd
-    /\ cfg.streaming \/ readDone
+    /\ cfg.streaming \/ readDone \/ Beh(cur) = "panic"
     \* trailers are visible once the whole chunked body was read
     /\ (~cfg.streaming \/ eofSeen) => Line.trailers = Expected(script[cur], cur).trailers
     /\ Consume /\ KeepAux
 
-\* echo handler: 200, sequence number = request index; close exactly when the request asked for it
+\* echo handler: 200, sequence number = request index; a handler that panicked under the recovery middleware
+\* yields a 500; the connection closes exactly when the request asked for it
 TraceRespond ==
     /\ active /\ HasLine /\ Line.ev = "Response" /\ Line.kind = "final" /\ phase = "write"
     /\ Respond(Line.close)
     /\ Line.close = reqs[cur].close
-    /\ Line.status = 200 /\ Line.seq = cur /\ Line.body = "ok-" \o ToDec(cur)
+    /\ IF Beh(cur) = "panic" THEN Line.status = 500
+       ELSE Line.status = 200 /\ Line.seq = cur /\ Line.body = "ok-" \o ToDec(cur)
     /\ (script[cur].ver = "1.0" /\ ~Line.close) => Line.keepalive
     /\ Consume /\ KeepAux
+
+\* a malformed / oversized / cut-short request is answered with one 4xx carrying Connection: close (C03)
+TraceReject ==
+    /\ active /\ HasLine /\ Line.ev = "Response" /\ Line.kind = "final" /\ phase = "idle"
+    /\ Reject
+    /\ Line.status >= 400 /\ Line.status <= 499 /\ Line.close
+    /\ Consume /\ KeepAux
+
+\* the injected write fault hit the response of request cfg.wfail
+TraceWriteFail == /\ active /\ HasLine /\ Line.ev = "WriteFailed" /\ WriteFail /\ Consume /\ KeepAux
 
 TraceClosed ==
     /\ active /\ HasLine /\ Line.ev = "ConnClosed"
     /\ \/ CloseAfter /\ UNCHANGED unread
-       \/ ~LastClose /\ CloseUnread /\ unread' = TRUE
+       \/ phase = "after" /\ ~LastClose /\ CloseUnread /\ unread' = TRUE
        \/ IdleClose /\ UNCHANGED unread
-    /\ Consume /\ UNCHANGED <<script, active, readDone, eofSeen>>
+       \/ AbortPartial /\ UNCHANGED unread
+       \/ phase = "closed" /\ UNCHANGED <<vars, unread>>      \* after a rejection or a failed write
+    /\ Consume /\ UNCHANGED <<script, active, readDone, eofSeen, behs, level>>
+
+\* tracer (C19)
+TraceTStart == /\ active /\ HasLine /\ Line.ev = "TStart" /\ TStart /\ Consume /\ KeepAux
+
+\* stage times relative to the pair's start, in the order start, read-header start/finish, read-body start/finish,
+\* handle start/finish, write start/finish, finish; -1 = not recorded, -2 = recorded before this pair's start
+StagesOK(st) ==
+    /\ Len(st) = 10 /\ st[1] >= 0 /\ st[10] >= 0
+    /\ \A i \in 1 .. 10 : st[i] # -2
+    /\ \A p \in {<<2, 3>>, <<4, 5>>, <<6, 7>>, <<8, 9>>} : st[p[1]] >= 0 => st[p[2]] >= 0   \* a started stage is finished
+    /\ \A i, j \in 1 .. 10 : (i < j /\ st[i] >= 0 /\ st[j] >= 0) => st[i] <= st[j]
+
+TraceTFinish ==
+    /\ active /\ HasLine /\ Line.ev = "TFinish"
+    /\ TFinish
+    /\ pairReq # 0 => (Line.target = script[pairReq].target /\ Line.method = script[pairReq].method)
+    /\ StagesOK(Line.stages)
+    /\ (level = "detailed" /\ pairReq # 0 /\ cfg.wfail # pairReq) => \A i \in 1 .. 10 : Line.stages[i] >= 0
+    /\ Consume /\ KeepAux
 
 \* between requests (nothing logged): skip the rest of a streamed body, finish the tracer pair, next request.
 \* The trace specification must stay deterministic (one successor per state), otherwise Mismatch would fire on a
@@ -136,7 +182,7 @@ TraceClosed ==
 \* one that only the idle phase of the next request can produce.
 NeedsIdle == /\ HasLine
              /\ \/ Line.ev = "Handle"
-                \/ Line.ev = "Response"
+                \/ Line.ev = "Response" \/ Line.ev = "TStart"
                 \/ (Line.ev = "ConnClosed" /\ ~(cfg.streaming /\ rd < reqs[cur].end))
 TraceContinue == /\ active /\ phase = "after" /\ NeedsIdle /\ Continue /\ UNCHANGED <<l, bad>> /\ KeepAux
 
@@ -144,10 +190,12 @@ TraceContinue == /\ active /\ phase = "after" /\ NeedsIdle /\ Continue /\ UNCHAN
 \* a connection whose streamed body was left unread
 TraceEnd == /\ active /\ HasLine /\ Line.ev = "End" /\ phase = "closed"
             /\ unread \/ Len(hlog) = ExpectedHandled
+            /\ ~(topen /\ pairReq # 0)         \* the pair of a handled request has been finished
             /\ Blank /\ Consume
 
 Normal == TraceCase \/ TraceDeliver \/ TraceEof \/ TraceInterim \/ TraceHandle \/ TraceReadBuffered \/ TraceReadStream
           \/ TraceHandleEnd \/ TraceRespond \/ TraceClosed \/ TraceContinue \/ TraceEnd
+          \/ TraceReject \/ TraceWriteFail \/ TraceTStart \/ TraceTFinish
 
 NextCase(k) == IF \E j \in k + 1 .. Len(Trace) : Trace[j].ev = "Case"
                THEN CHOOSE j \in k + 1 .. Len(Trace) : Trace[j].ev = "Case" /\ \A i \in k + 1 .. j - 1 : Trace[i].ev # "Case"
